@@ -163,6 +163,7 @@ func (e histEngine) Probes() []string {
 }
 
 func (e histEngine) Gen(r *R, tier string) any {
+	observeUnknownAPI = true
 	p := &HistPlan{Perm: r.Uint64()}
 	n := r.Range(1, 3)
 	for i := 0; i < n; i++ {
@@ -216,6 +217,7 @@ func (e histEngine) Decode(b []byte) (any, error) {
 }
 
 func (e histEngine) Exec(plan any, c *Ctx) *Violation {
+	observeUnknownAPI = true
 	p := plan.(*HistPlan)
 	var m *cors.Middleware
 	// C08 only: a shadow twin lives through the same history WITHOUT the rejected
@@ -238,16 +240,16 @@ func (e histEngine) Exec(plan any, c *Ctx) *Violation {
 			switch st.Kind {
 			case "new":
 				cc := p.Cfgs[st.Cfg].Config()
-				m, err = cors.NewMiddleware(cc)
+				m, err = mkMW(cc)
 				if m != nil {
 					longLived[m] = newServer(m.Wrap)
 				}
 				cur = st.Cfg
 			case "zero":
-				m = new(cors.Middleware)
+				m = zeroMW()
 				longLived[m] = newServer(m.Wrap)
 			case "zero_reconf":
-				m = new(cors.Middleware)
+				m = zeroMW()
 				longLived[m] = newServer(m.Wrap) // wrapped while still passthrough
 				cc := p.Cfgs[st.Cfg].Config()
 				err = m.Reconfigure(&cc)
@@ -283,11 +285,11 @@ func (e histEngine) Exec(plan any, c *Ctx) *Violation {
 			pan := catch(func() {
 				switch st.Kind {
 				case "new":
-					shadow, _ = cors.NewMiddleware(p.Cfgs[st.Cfg].Config())
+					shadow, _ = mkMW(p.Cfgs[st.Cfg].Config())
 				case "zero":
-					shadow = new(cors.Middleware)
+					shadow = zeroMW()
 				case "zero_reconf":
-					shadow = new(cors.Middleware)
+					shadow = zeroMW()
 					cc := p.Cfgs[st.Cfg].Config()
 					shadow.Reconfigure(&cc)
 				case "reconf":
@@ -429,7 +431,7 @@ func (e histEngine) f2(p *HistPlan, m *cors.Middleware, cur int, kind, label str
 		if snap == nil {
 			return nil
 		}
-		m2, err := cors.NewMiddleware(*snap)
+		m2, err := mkMW(*snap)
 		if err != nil {
 			return &Violation{Class: "restore-rejected", Key: key, Detail: fmt.Sprintf("%s: NewMiddleware(*m.Config()) failed with %q; Config() = %s", label, err, key)}
 		}
@@ -454,8 +456,8 @@ func (e histEngine) f2(p *HistPlan, m *cors.Middleware, cur int, kind, label str
 	twinDone[cur] = true
 	// constructor twins, both debug modes; Config() fixpoint
 	cc := p.Cfgs[cur]
-	m1, err1 := cors.NewMiddleware(cc.Config())
-	m3 := new(cors.Middleware)
+	m1, err1 := mkMW(cc.Config())
+	m3 := zeroMW()
 	c3 := cc.Config()
 	err3 := m3.Reconfigure(&c3)
 	if err1 != nil || err3 != nil {
@@ -465,12 +467,12 @@ func (e histEngine) f2(p *HistPlan, m *cors.Middleware, cur int, kind, label str
 		return nil
 	}
 	c1 := m1.Config()
-	m2, err2 := cors.NewMiddleware(*c1)
+	m2, err2 := mkMW(*c1)
 	if err2 != nil {
 		return &Violation{Class: "restore-rejected", Key: fromConfig(c1).String(), Detail: fmt.Sprintf("NewMiddleware(*Config()) failed with %q for Config() = %s of %s", err2, fromConfig(c1), cc)}
 	}
 	c2 := m2.Config() // one round trip
-	m4, err4 := cors.NewMiddleware(*c2)
+	m4, err4 := mkMW(*c2)
 	if err4 != nil {
 		return &Violation{Class: "restore-rejected", Key: fromConfig(c2).String(), Detail: fmt.Sprintf("NewMiddleware(*Config()) failed with %q for Config() = %s (second generation of %s)", err4, fromConfig(c2), cc)}
 	}
